@@ -509,6 +509,7 @@ def monitors_popen(s, drv, rep):
     reported = None
     finished_at_op = None
     killed_at = None
+    bogus_report = False    # termination was "observed" while the child was alive and unreaped
     found_reaped = None     # index of the first query that ran a status check after somebody else had reaped the child
     for i, o in enumerate(ops):
         name, val = o["name"], o["value"]
@@ -539,6 +540,7 @@ def monitors_popen(s, drv, rep):
                 want = expect if killed_at is None or (te is not None and te <= killed_at) else None
                 if exit_time is None or t1 < exit_time:
                     fails["C09"].append("op#%d %s reported %s at t=%d while the child was still running" % (i + 1, name, val, t1))
+                    bogus_report = True
                 elif want is not None and val != want:
                     fails["C09"].append("op#%d %s reported %s but the child's real status is %s" % (i + 1, name, val, want))
             else:
@@ -567,6 +569,10 @@ def monitors_popen(s, drv, rep):
                     if te is None or killed_at < te:
                         expect_sig = "signaled:%d" % want_sig
                         expect = expect_sig
+            elif bogus_report:
+                if not kills:
+                    fails["C10"].append("op#%d %s sent nothing and returned %s although the child is alive and was never reaped (it had only been %s)" % (
+                        i + 1, name, val, reported))
             else:
                 if kills:
                     fails["C10"].append("op#%d %s sent %s after termination had been observed" % (i + 1, name, kills))
